@@ -22,6 +22,11 @@ THEOREMS = [
     'PbBss.C02.full_mstep_Q',
     'PbBss.C02.watson_mstep_Q',
     'PbBss.C02.watson_tangent_of_convex',
+    'PbBss.C02.watson_kernel_is_1F1',
+    'PbBss.C02.watson_lognorm_convex',
+    'PbBss.C02.watson_lognorm_deriv',
+    'PbBss.C02.watson_tangent_exact',
+    'PbBss.C02.watson_mstep_Q_exact',
     'PbBss.C02.gaussian_full_crux',
     'PbBss.C02.product_mstep_Q',
     'PbBss.C02.cacg_mstep_Q',
@@ -32,6 +37,7 @@ THEOREMS = [
     'PbBss.C02.em_monotone_gmm_diagonal',
     'PbBss.C02.em_monotone_gmm_full',
     'PbBss.C02.em_monotone_cwmm',
+    'PbBss.C02.em_monotone_cwmm_exact',
     'PbBss.C02.em_monotone_cacgmm',
     'PbBss.C02.em_monotone_gcacgmm',
 ]
@@ -39,8 +45,9 @@ ASSUMPTIONS = [
     "guards inactive on the judged stretch of the history (weights positive, E-step denominator clamp inactive, class mass >= tiny, "
     "variances positive, cACG quadratic forms >= 10*tiny and eigenvalue/trace floors inactive, Watson concentration not clipped)",
     "contracts of the externals: eigh (orthonormal eigenvectors, A U = U diag(lambda)), get_pca (unit top eigenvector, Rayleigh "
-    "maximal), Watson concentration = exact inverse of the hypergeometric ratio of a convex log-normaliser (TangentAt); the code's "
-    "spline only approximates it (error measured in the correspondence run)",
+    "maximal), Watson concentration = exact inverse of the hypergeometric ratio (for the true log-normaliser C + log 1F1(1;D;kappa) "
+    "convexity and the tangent condition are proved: watson_lognorm_convex, watson_tangent_exact, em_monotone_cwmm_exact); the code's "
+    "spline only approximates the exact inverse (error measured in the correspondence run)",
     "with a saliency the monitored quantity is the saliency-weighted log-likelihood (DESIGN.md 5c)",
     "sklearn's precision-Cholesky routine is an external with the contract PcholOk (upper triangular P, positive diagonal, "
     "(P P^T) Sigma = 1, log-det = sum log P_dd); the driver uses a Cholesky routine of its own on Float",
@@ -188,6 +195,14 @@ def _line(c, m):
            f'{fbits(m.cacg.covariance_eigenvalues)}'
 
 
+def singular_full_covariance(family, m):
+    """a full class covariance of the code's iterate that is singular to working precision (condition number >= 1e11)"""
+    if not family.endswith('-full'):
+        return False
+    cond = float(np.max(np.linalg.cond(np.asarray(m.gaussian.covariance, dtype=np.float64))))
+    return not cond < 1e11
+
+
 def _compare(ctx, c, m, m_next, out):
     family, F, K, D, N = c['family'], c['F'], c['K'], c['D'], c['N']
     fam = eu.FAMILIES[family]
@@ -200,6 +215,12 @@ def _compare(ctx, c, m, m_next, out):
         if not ok and not any(c is d for d in _DISAGREE):
             _DISAGREE.append(c)
         ctx.corr(f'{op}[{family}]', ok, f'{tag}: {detail}', {k: v for k, v in c.items() if k in ('y', 'init', 'opts', 'i')})
+    if singular_full_covariance(family, m):
+        if True:
+            # a class covariance that is singular to working precision (collapsed class): whether a Cholesky factorisation
+            # exists at all is decided by rounding (the driver's fails where LAPACK's barely succeeds, or the reverse)
+            ctx.count(f'corr-not-compared:numerically-singular-full-covariance[{family}]')
+            return 'not-compared'
     # log-likelihood of iterate i: model logLik (plain formula), logLikMethod (logsumexp form) vs independent value
     L = eu.mixture_ll(fam.log_pdf(m, data), fam.weight(m), sal)
     ok, d = _close(g[0][0], L, scale=1 + abs(L))
